@@ -2,7 +2,10 @@
 
 package vsched
 
-import "fmt"
+import (
+	"fmt"
+	"runtime"
+)
 
 // core is the untyped model of a channel.
 type core struct {
@@ -52,8 +55,9 @@ type scase struct {
 type selectOp struct {
 	cases      []*scase
 	hasDefault bool
-	chosen     int // index of the executed case, -1 for default
-	completed  bool // completed by a rendezvous partner
+	chosen     int     // index of the executed case, -1 for default
+	completed  bool    // completed by a rendezvous partner
+	site       uintptr // call site of a multi-way select (0 = single operation)
 }
 
 // partner finds a parked thread other than t whose pending select has a case
@@ -114,6 +118,24 @@ func (so *selectOp) alts(t *thread) []int {
 	if len(a) == 0 && so.hasDefault {
 		return []int{-1}
 	}
+	if len(a) > 1 && so.site != 0 {
+		// Fair default: Go picks uniformly among the ready cases, so a case that
+		// stays ready is taken eventually. The deterministic default prefers the
+		// ready case taken least often so far at this select statement (ties: source
+		// order); the other ready cases remain alternatives at cost 1.
+		cnt := S.selCounts[so.site]
+		get := func(i int) int {
+			if i < len(cnt) {
+				return cnt[i]
+			}
+			return 0
+		}
+		for i := 1; i < len(a); i++ {
+			for j := i; j > 0 && get(a[j]) < get(a[j-1]); j-- {
+				a[j], a[j-1] = a[j-1], a[j]
+			}
+		}
+	}
 	return a
 }
 
@@ -152,6 +174,14 @@ func (so *selectOp) exec(t *thread, a int) {
 	so.chosen = a
 	if a < 0 {
 		return
+	}
+	if so.site != 0 {
+		cnt := S.selCounts[so.site]
+		for len(cnt) <= a {
+			cnt = append(cnt, 0)
+		}
+		cnt[a]++
+		S.selCounts[so.site] = cnt
 	}
 	cs := so.cases[a]
 	c := cs.ch
@@ -378,6 +408,9 @@ func Select(hasDefault bool, arms ...Case) int {
 		panic(abortPanic{})
 	}
 	so := &selectOp{hasDefault: hasDefault}
+	if pc, _, _, ok := runtime.Caller(1); ok {
+		so.site = pc
+	}
 	for _, a := range arms {
 		so.cases = append(so.cases, a.scase())
 	}
